@@ -4,16 +4,17 @@
    `openCircuit` only. -/
 import CircuitModel.GoCircuitSpec
 import CircuitProofs.GoTie.Basic
+import Generated.GoCircuit.F_IsOpen
 import Generated.GoCircuit.F_openCircuit
 namespace CM.GoTie
 open CM CM.Go CM.GoCircuit CM.Generated.GoCircuit
 variable {σo σc : Type} [L : Logic σo σc]
 
-theorem go_openCircuit_eq (hI : go_IsOpen (σo := σo) (σc := σc) = spec_IsOpen) (ctx : GoCtx) (t : GoTime) :
+theorem go_openCircuit_eq (_hI : go_IsOpen (σo := σo) (σc := σc) = spec_IsOpen) (ctx : GoCtx) (t : GoTime) :
     go_openCircuit (σo := σo) (σc := σc) ctx t = spec_openCircuit ctx t := by
   funext g
-  simp only [go_openCircuit, spec_openCircuit, hI]
+  simp only [go_openCircuit, spec_openCircuit]
   rw [gt_fn_unlock] <;> gt_eval [spec_IsOpen]
-  all_goals (repeat' split) <;> simp_all [openCircuit, onS]
+  all_goals (repeat' split) <;> simp_all [openCircuit, onS, isOpenEff]
 
 end CM.GoTie
